@@ -76,8 +76,15 @@ func permCount(n int) int {
 	case n == 4:
 		return 24
 	}
+	if n > largeMap {
+		return 2 + 2*largeMapSamples // identity, reversal, a spread of transpositions and rotations
+	}
 	return 2 + (n - 1) + (n - 1)
 }
+
+// Maps with more keys than this get a reduced menu (the full one grows with the map).
+const largeMap = 256
+const largeMapSamples = 8
 
 var permTable = map[int][][]int{}
 
@@ -115,6 +122,19 @@ func applyPerm(n, idx int) []int {
 	}
 	if n <= 4 {
 		return allPerms(n)[idx]
+	}
+	if n > largeMap && idx >= 2 {
+		k := idx - 2
+		if k < largeMapSamples { // transposition of two neighbours at evenly spread positions
+			t := (k * (n - 1)) / largeMapSamples
+			p[t], p[t+1] = p[t+1], p[t]
+		} else { // rotation by evenly spread amounts
+			r := 1 + ((k-largeMapSamples)*(n-1))/largeMapSamples
+			for i := range p {
+				p[i] = (i + r) % n
+			}
+		}
+		return p
 	}
 	switch {
 	case idx == 1:
